@@ -136,6 +136,7 @@ func rulesC01(c *Ctx) {
 	R := c.R
 	R.Rule("R1", "signing (swap) and paying/settling (melt) are cut by: inputs not spent, not pending, no duplicates, read errors not swallowed, Ys derived from the inputs", 14)
 	R.Rule("R3", "swap returns success, and stores the output signatures, only after the inputs were inserted into the spent table", 2)
+	R.Rule("R11", "who may release locked inputs: only the melt operation and the melt-quote poll (shared with C05.R9)", 3)
 	R.Rule("R10", "the spent / pending look-ups report every matching row: the list readers return the accumulation of all rows they scan", 2)
 	R.Rule("R4", "melt pays/settles only after LOCK(inputs, quote) succeeded and the stored quote state was neither PAID nor PENDING", 9)
 	R.Rule("R5", "melt op / poll: inputs are marked spent only behind success facts, released only behind definitive-failure facts; census of every unlock/mark-spent/quote-write site", 30)
@@ -243,7 +244,9 @@ func rulesC01(c *Ctx) {
 	}
 
 	c.meltDecisionTable("R5", false)
+	c.ruleUnlockCallers("R11")
 	c.readersReturnEveryRow("R10", "GetProofsUsed", "GetPendingProofs")
+	c.ruleSQLAgreement("R10", map[string]bool{"proofs": true, "pending_proofs": true})
 	c.c01Schema()
 	c.c01YSites()
 	c.c01NoErase()
